@@ -105,6 +105,7 @@ def one(src):
   from pytype import io as pio
   from pytype import load_pytd
   from pytype.imports import pickle_utils
+  from pytype.pytd import pytd
   from pytype.pytd import serialize_ast
   terms.STRIP = ("a.",)
   d = tempfile.mkdtemp(prefix="c06-", dir=os.path.join(common.VERIF, "build"))
@@ -143,6 +144,11 @@ def one(src):
         return {"crash": "%s under %s: %s: %s" % ("B", cfg, type(e).__name__, str(e)[:300]),
                 "src": src, "bsrc": bsrc, "pyiA": pyiA}
       st = terms.stub_slots(retB.ast)
+      for al in retB.ast.aliases:
+        # output.value_to_pytd_def emits a module-level name bound to a parameterised class or to a
+        # union of classes as the alias `name = T`: the name's type is Type[T]
+        if isinstance(al.type, (pytd.GenericType, pytd.UnionType)):
+          st["names"][al.name] = ["type", "", [terms.from_pytd(al.type)]]
       seen[cfg] = st
       pyiB[cfg] = pb
       errs[cfg] = [e.name for e in retB.context.errorlog.unique_sorted_errors()]
@@ -464,8 +470,8 @@ def world_one(case):
 def world_cfg(family, **kw):
   d = dict(Family='"%s"' % family, NUp=2, MinImpI=1, MaxImpI=1, MinImpL=2, MaxImpL=2,
            AliasNames='{"u"}', UsesInner='{"meth"}', UsesLast='{"var", "fn"}',
-           FixClasses='{"Cfg"}', TVarNames='{"K", "T", "V"}', MinParams=2, MaxParams=2,
-           AttrShapes='{"plain", "list"}', Locs='{"same", "alias"}', Subs="{TRUE, FALSE}")
+           FixClasses='{"Cfg"}', FirstTargets='{"c2"}', TVarNames='{"K", "T", "V"}', MinParams=2,
+           MaxParams=2, AttrShapes='{"plain", "list"}', Locs='{"same", "alias"}', Subs="{TRUE}")
   d.update(kw)
   return ("INIT Init\nNEXT Next\nCONSTANTS\n" + "".join(" %s = %s\n" % kv for kv in sorted(d.items()))
           + "INVARIANT WellFormed\nINVARIANT Closed\nINVARIANT ExportInv\n")
@@ -473,8 +479,8 @@ def world_cfg(family, **kw):
 
 WIDE_DAG = dict(NUp=3, MinImpI=1, MaxImpI=2, MinImpL=1, MaxImpL=2, AliasNames='{"u", "w"}',
                 UsesInner='{"var", "fn", "meth"}', UsesLast='{"var", "fn", "meth"}',
-                FixClasses='{"Cfg", "Own"}')
-WIDE_GEN = dict(MinParams=1, MaxParams=3, Locs='{"same", "plain", "alias"}')
+                FixClasses='{"Cfg", "Own"}', FirstTargets='{"c1", "c2"}')
+WIDE_GEN = dict(MinParams=1, MaxParams=3, Locs='{"same", "plain", "alias"}', Subs="{TRUE, FALSE}")
 NSLICES = 16
 
 
@@ -534,11 +540,12 @@ def main():
                    dict(seed=7000 + sl, simulate="num=%d" % (25 if thorough else 12), depth=14), 8))
     if thorough:
       jobs.append(("dag", "StubWorld", world_cfg("dag", MinImpL=1, UsesInner='{"var", "meth"}',
-                                                 UsesLast='{"var", "fn", "meth"}'), {}, 900))
+                                                 UsesLast='{"var", "fn", "meth"}',
+                                                 FirstTargets='{"c1", "c2"}'), {}, 900))
       jobs.append(("gen", "StubWorld", world_cfg("gen", **WIDE_GEN), {}, 460))
     else:
-      jobs.append(("dag", "StubWorld", world_cfg("dag"), {}, 192))
-      jobs.append(("gen", "StubWorld", world_cfg("gen"), {}, 96))
+      jobs.append(("dag", "StubWorld", world_cfg("dag"), {}, 96))
+      jobs.append(("gen", "StubWorld", world_cfg("gen"), {}, 48))
 
     def gen(job):
       kind, module, cfg, kw, least = job
@@ -640,9 +647,9 @@ def main():
     run.put("gen_worlds", ngen)
     run.put("reads_judged_in_alias_collision_worlds", ncol)
     run.put("reads_judged_in_nonalphabetical_generic_worlds", nna)
-    common.require(ndag >= 195 and ngen >= 96, "too few worlds: dag %d gen %d" % (ndag, ngen))
-    common.require(ncol >= 200, "alias collisions across modules were not exercised (%d reads)" % ncol)
-    common.require(nna >= 500, "non-alphabetical generic templates were not exercised (%d reads)" % nna)
+    common.require(ndag >= 100 and ngen >= 48, "too few worlds: dag %d gen %d" % (ndag, ngen))
+    common.require(ncol >= 120, "alias collisions across modules were not exercised (%d reads)" % ncol)
+    common.require(nna >= 400, "non-alphabetical generic templates were not exercised (%d reads)" % nna)
     common.require(njudged * 10 >= nreads * 9, "too many reads the upstream declarations do not type: "
                    "%d of %d judged" % (njudged, nreads))
   for k in keep:
